@@ -556,3 +556,36 @@ _EXTRA = {
 }
 for _k, _v in _EXTRA.items():
     PROPS[_k]['rule'] = PROPS[_k]['rule'] + _v
+
+# additions of the defect hunt (DESIGN.md 0.3.1)
+_EXTRA2 = {
+ 'C01': ' Also: the witness of the known finding fast-sync-commits-uncertified-block on real controllers.',
+ 'C02': ' Also: a block whose header embeds a +2/3 certificate of another phase as the previous block\'s certificate; a block certified '
+        'under an old root height by validators that have since unstaked (historical committee).',
+ 'C03': ' Also: rounds restarted (NewRound + ProduceProposal) between validation and commit; after every commit the committed state root '
+        'is compared with the header\'s.',
+ 'C04': ' Also: certificate-results transactions whose certificate is in a non-commit phase; genesis delegates, slashed like validators; '
+        'a (validator, height) pair named by a nested certificate and by the chain\'s own results of the same block, then an empty block.',
+ 'C05': ' Also: an account at the address of a threshold-0 multi-signature key spent by one member; the witness of the known finding '
+        'multisig-approval-executed-again (one approval under two orderings of the member keys).',
+ 'C06': ' Also: a typed Ethereum transfer under the legacy RLP wrapper, executed, then offered again under other encodings of V.',
+ 'C09': ' Also: commits verified (version, every key of the block) while other stores over the same database are reset concurrently, in a child process.',
+ 'C12': ' Also: delegates slashed; the chain\'s own certificate naming an already slashed (validator, height) pair, followed by an empty block.',
+ 'C13': ' Also: populations with very large stakes (committee totals in [2^63, 2^64)).',
+ 'C14': ' Also: the minimum evidence height is computed from the controller\'s root height as the real root chain would (faithful mock).',
+ 'C17': ' Also: identities under which a constant signature verifies (neutral element, small-order points, empty signer set).',
+ 'C18': ' Also: histories of sends (accepted, timed out after 10 s) and drains on the real bounded send queue (Stream.queueSends) against '
+        'the model qsend; Stop() between two packets of a message on the real Stream; heartbeats against Stop() with a full heartbeat queue.',
+ 'C19': ' Also: transactions played through the real state machine (order ids of every length class, garbage signatures); consensus '
+        'messages through the pre-validation gossip path.',
+}
+for _k, _v in _EXTRA2.items():
+    PROPS[_k]['rule'] = PROPS[_k]['rule'] + _v
+_NOTE2 = {
+ 'C20': ' The claim excludes histories in which the liveness fallback follows a root batch the nested chain has already executed (DESIGN.md O-16: reported by a reader, not reproduced by this check).',
+ 'C18': ' Sender attribution during connection set-up (the identity is written into the shared PeerInfo after the receive service has started, DESIGN.md O-17) is not exercised.',
+ 'C01': ' One KNOWN finding: fast sync (catching-up validators verify certificates only at checkpoint heights).',
+ 'C05': ' One KNOWN finding: one multi-signature approval yields several executable transactions (key orderings).',
+}
+for _k, _v in _NOTE2.items():
+    PROPS[_k]['level_note'] = PROPS[_k].get('level_note', '') + _v
